@@ -620,6 +620,35 @@ func generateSQLResultFromOriginSQL(sql string, result *RouteResult, router *rou
 	return ret, nil
 }
 
+// emptyAggregateRow builds the single row of a SELECT whose select list consists of COUNT / SUM / MAX / MIN only
+// and that has no GROUP BY, for an empty input; ok is false for every other statement.
+func emptyAggregateRow(fields []*mysql.Field, stmt *ast.SelectStmt, fieldLen int) (mysql.RowData, []interface{}, bool) {
+	if stmt.GroupBy != nil || stmt.Having != nil || fieldLen == 0 {
+		return nil, nil, false
+	}
+	var row []byte
+	values := make([]interface{}, 0, fieldLen)
+	for i := 0; i < fieldLen; i++ {
+		agg, isAgg := stmt.Fields.Fields[i].Expr.(*ast.AggregateFuncExpr)
+		if !isAgg {
+			return nil, nil, false
+		}
+		switch strings.ToLower(agg.F) {
+		case "count":
+			fields[i].Type = mysql.TypeLonglong
+			row = mysql.AppendLenEncStringBytes(row, []byte("0"))
+			values = append(values, int64(0))
+		case "sum", "max", "min":
+			fields[i].Type = mysql.TypeNull
+			row = append(row, 0xfb) // NULL in a text row
+			values = append(values, nil)
+		default:
+			return nil, nil, false
+		}
+	}
+	return row, values, true
+}
+
 // copy from newEmptyResultset
 // 注意去掉补充的列
 func newEmptyResultset(info *SelectPlan, stmt *ast.SelectStmt) *mysql.Resultset {
@@ -647,6 +676,13 @@ func newEmptyResultset(info *SelectPlan, stmt *ast.SelectStmt) *mysql.Resultset 
 
 	r.Values = make([][]interface{}, 0)
 	r.RowDatas = make([]mysql.RowData, 0)
+
+	// an aggregate query without GROUP BY answers with one row even when no row matches: COUNT is 0, SUM /
+	// MAX / MIN are NULL (here no sub-table can hold a matching row, so nothing was sent to any backend)
+	if row, values, ok := emptyAggregateRow(r.Fields, stmt, fieldLen); ok {
+		r.RowDatas = append(r.RowDatas, row)
+		r.Values = append(r.Values, values)
+	}
 
 	return r
 }
